@@ -59,7 +59,14 @@ pub fn case_json(b: &ConvBound, trace: &[Act], recv: &str, path: &[Edge]) -> Val
 /// Enumerate histories of every bound; for each distinct pool run the lattices.
 pub fn run_conv(ctx: &mut Ctx, bounds: &[ConvBound], mon: &mut dyn Monitor) {
     let mut idx = 0u64;
-    for b in bounds {
+    // YV_ONLY_CFG=k runs only the k-th configuration (for measuring one bound at a time)
+    let only: Option<usize> = std::env::var("YV_ONLY_CFG").ok().and_then(|s| s.parse().ok());
+    for (bi, b) in bounds.iter().enumerate() {
+        if only.map(|k| k != bi).unwrap_or(false) {
+            continue;
+        }
+        let t_cfg = std::time::Instant::now();
+        let _ = &t_cfg;
         let h = HistCfg {
             fam: b.fam,
             level: b.level,
@@ -237,6 +244,10 @@ pub fn replay_case(ctx: &mut Ctx, case: &Value, mon: &mut dyn Monitor, b0: &Conv
                     }
                     if std::env::var("VERIF_TRACE").is_ok() {
                         eprintln!("--- receiver after path step {}: {}\n{}", i, show_model(&r.rep().dump()), show_store(&r.rep().store_dump()));
+                    }
+                    if i > 0 && receiver_made_own_deletions(&pool_delete_points(&pool), r.mask, r.rep()) {
+                        // (as in the search: a receiver that cleaned up marks on its own is not judged against the pool)
+                        return;
                     }
                     let node = LatticeNode {
                         recv: &r,
